@@ -157,11 +157,19 @@ func checkNeoFamily(c *core.Ctx, prop string) {
 		eng.Dominates(c, prop+".neo-tracked-consensus", fn, eng.ErrNilOf("GetCurrentStateValidator", gsv), succ, "nil return", nil)
 		// expected = CreateMultiSigContract(m, pubKeys).GetScriptHash(); guard expected.Equals(got)
 		var cms *ssa.Call
-		for _, ci := range ir.Calls(fn, nil) {
-			if o := ir.CalleeObj(ci); o != nil && o.Name() == "CreateMultiSigContract" {
-				cms, _ = ci.(*ssa.Call)
+		// in the function itself or in a same-package helper that computes the expected script hash
+		hosts, releaseHosts := hostsWithHelpers(fn)
+		for _, host := range hosts {
+			for _, ci := range ir.Calls(host, nil) {
+				if o := ir.CalleeObj(ci); o != nil && o.Name() == "CreateMultiSigContract" {
+					cms, _ = ci.(*ssa.Call)
+					if host != fn {
+						c.Attribute(host, fn)
+					}
+				}
 			}
 		}
+		defer releaseHosts()
 		if cms == nil {
 			c.Broken(prop+".neo-tracked-consensus", fn, "CreateMultiSigContract call", c.P.Rel(fn.Pos()), "not found")
 			continue
@@ -212,12 +220,20 @@ func checkNeoFamily(c *core.Ctx, prop string) {
 			}
 			a := cl.Common().Args
 			exp := func(v ssa.Value) bool {
-				g, _ := ir.CallOf(v)
-				if g == nil || ir.CalleeObj(g) == nil || ir.CalleeObj(g).Name() != "GetScriptHash" {
-					return false
+				try := func(y ssa.Value) bool {
+					g, _ := ir.CallOf(y)
+					if g == nil || ir.CalleeObj(g) == nil || ir.CalleeObj(g).Name() != "GetScriptHash" {
+						return false
+					}
+					src, idx := ir.CallOf(g.Common().Args[0])
+					return src == cms && idx <= 0
 				}
-				src, idx := ir.CallOf(g.Common().Args[0])
-				return src == cms && idx <= 0
+				if try(v) {
+					return true
+				}
+				via, release := valueVia(v) // the hash a helper returns
+				defer release()
+				return via != v && try(via)
 			}
 			return (exp(a[0]) && scriptOfMsg(a[1])) || (exp(a[1]) && scriptOfMsg(a[0]))
 		}, true)}
